@@ -10,7 +10,7 @@ RULE = ('hostile histories: byte-level mutants (truncations, flips, hostile 16/3
         'prefix, hostile template histories (record size 0, field counts 0 and 65535, options templates reusing data ids, '
         'data before templates, variable-length only), through the three pipes (sflow://, netflow://, flow://) with no '
         'mapping, cmd/goflow2/mapping.yaml and generated mapping files, and through the exported Decode*/ProcessMessage*Config '
-        '(nil configuration) and ParsePacket entry points. Property (implementation alone): every call returns within the '
+        '(nil configuration) and ParsePacket entry points; word sweeps: every aligned word of the first 48 bytes (small and large values) and, for one datagram of every protocol, every word of the whole datagram (large values and their neighbours). Property (implementation alone): every call returns within the '
         'watchdog (20 s per batch, a stalled datagram is attributed and the run continues) and no panic escapes; fidelity: '
         'error class and messages == model. non-trivial = a datagram that is not simply rejected by the version check '
         '(model outcome ok/tnf or at least 24 bytes decoded); distinct by input')
@@ -177,5 +177,37 @@ def run(chk):
     bad = [(a, o, m) for a, o, m in zip(hwl, ihw, mhw) if o != m and o not in ('hang', 'crash', 'skipped')]
     me.GEN = 'C06'
     resolve_scope_b(chk, me, bad, 'hostile-header-words', {}, None, None)
+    # body word sweep (sixth round): behind the first 48 bytes the mutants above are random. One datagram (thorough: six)
+    # of every protocol -- for sFlow the ones carrying extended gateway records first, for v9 / IPFIX the ones with the
+    # most sets -- has EVERY aligned 32-bit word of its whole length replaced by each of the large values and their
+    # neighbours (a guard computed as length + 1 or rounded up to a multiple of 4 wraps for exactly one of them), and for
+    # NetFlow every 16-bit word by 0, 1, 3 and 65535; history kept; compared with the model.
+    big2 = [0, 1001, 65535, 2 ** 31 - 1, 2 ** 31, 2 ** 32 - 4, 2 ** 32 - 2, 2 ** 32 - 1]
+    bw = []
+    per2 = dict(quick=1, thorough=6)[chk.tier]
+    for key, lst in sorted(byp.items()):
+        def rank(t):
+            d = bytes.fromhex(t[0][t[1]][3][1:])
+            if len(d) > 900 or len(d) < 60:
+                return (1, 0)
+            if key.startswith('0000'):
+                return (0, -sum(1 for p in range(28, len(d) - 3, 4) if d[p:p + 4] == b'\x00\x00\x03\xeb'))
+            return (0, -len(d))
+        for quads, k in sorted(lst, key=rank)[:per2]:
+            d = bytes.fromhex(quads[k][3][1:])[:900]
+            pre = [t for q in quads[:k] for t in q] + quads[k][:3]
+            for pos in range(0, len(d) - 3, 4):
+                for v in big2:
+                    bw.append(' '.join(pre + ['=' + (d[:pos] + v.to_bytes(4, 'big') + d[pos + 4:]).hex()]))
+            if not key.startswith('0000'):
+                for pos in range(0, len(d) - 1, 2):
+                    for v in (0, 1, 3, 65535):
+                        bw.append(' '.join(pre + ['=' + (d[:pos] + v.to_bytes(2, 'big') + d[pos + 2:]).hex()]))
+    bwl = ['pipe flow none ' + h for h in bw]
+    ibw = impl_run(chk.harness, bwl, timeout=60.0)
+    judge(bwl, ibw, 'every word of whole datagrams replaced by hostile lengths and counts')
+    mbw = model_run('C06', bwl)
+    bad = [(a, o, m) for a, o, m in zip(bwl, ibw, mbw) if o != m and o not in ('hang', 'crash', 'skipped')]
+    resolve_scope_b(chk, me, bad, 'hostile-body-words', {}, None, None)
     me.GEN = 'C14'
     return chk.finish(me)
